@@ -5,7 +5,9 @@
     - [r2_arch_remove_target_spec]: dropping a key all of whose tables are free;
     - [r2_free_table_spec]: freeing an active empty table (lookups cleaned if there are several
       relation components, stale entries left under the table's own target ids otherwise);
-    - [r2_create_table_spec]: creation with arbitrary valid relations, fresh and recycle path;
+    - [r2_create_table_spec]: creation with arbitrary valid relations, fresh and recycle path; the
+      targets are registered by createTable itself, so no registration is pending afterwards
+      ([r2_create_tail_spec] is the part after the registration, [r2_flags_reg] what happens to the flags);
     - [r2_get_or_create_table_spec].
     Everything is stated for the parametrised invariant of Rel2Defs, so that the lemmas apply inside
     operations (dying targets [D], pending registrations [P], not yet uncached tables [X]). *)
@@ -317,6 +319,26 @@ Proof.
       rewrite (sa_bind_err E1). exists (w_istarget s). cbn. rewrite r2_set_istarget_id.
       split; [reflexivity|]. split; [reflexivity|]. split; [auto|]. split; [discriminate|].
       intros _. exists r. split; [left; reflexivity|]. apply Nat.ltb_ge. exact Ek.
+Qed.
+
+(** flags of ids that are not registered do not change *)
+Lemma r2_register_targets_frame : forall rels s k, ~ In k (map (fun r : rel => fst (snd r)) rels) ->
+  nth k (w_istarget (state_of (register_targets rels s))) false = nth k (w_istarget s) false.
+Proof.
+  induction rels as [|r rest IH]; intros s k Hk; [reflexivity|].
+  unfold register_targets. cbn [forM_]. fold (register_targets rest).
+  destruct (Nat.ltb (fst (snd r)) (length (w_istarget s))) eqn:Ek.
+  - set (s1 := s <| w_istarget ::= upd (fst (snd r)) true |>).
+    assert (E1 : (s0 <- get ;; guard (Nat.ltb (fst (snd r)) (length (w_istarget s0))) EIndex ;;;
+                  modify (fun s2 => s2 <| w_istarget ::= upd (fst (snd r)) true |>)) s = Ok tt s1).
+    { unfold bind, get. rewrite Ek. reflexivity. }
+    rewrite (sa_bind_ok E1). rewrite IH; [|intros Hc; apply Hk; right; exact Hc].
+    unfold s1. cbn. rewrite nth_upd. destruct (Nat.eqb_spec (fst (snd r)) k) as [Heq|Hne]; [|reflexivity].
+    exfalso. apply Hk. left. exact Heq.
+  - assert (E1 : (s0 <- get ;; guard (Nat.ltb (fst (snd r)) (length (w_istarget s0))) EIndex ;;;
+                  modify (fun s2 => s2 <| w_istarget ::= upd (fst (snd r)) true |>)) s = Err EIndex s).
+    { unfold bind, get. rewrite Ek. reflexivity. }
+    rewrite (sa_bind_err E1). reflexivity.
 Qed.
 
 Lemma r2_St2G_flags : forall D P P' X s l', St2G D P X s -> length l' = length (w_istarget s) ->
@@ -1273,8 +1295,9 @@ Qed.
 (** ** Valid relation lists *)
 
 (** [rels] names every relation component of the archetype exactly once, with targets that are the
-    zero entity or stored entities. (createTable itself only checks the length, the components and
-    the targets' liveness: a duplicate component is NOT rejected, see Rel2Check N2.) *)
+    zero entity or stored entities. (createTable checks the length, that no component is named
+    twice ([rels_distinct], see Rel2Check N2 for the defect this repaired), the components and the
+    targets' liveness.) *)
 Definition r2_rels_valid (s : W) (a : arch) (rels : list rel) : Prop :=
   NoDup (map fst rels) /\ length rels = a_numrel a /\
   (forall c, In c (map fst rels) <-> exists i, nth_error (a_comps a) i = Some c /\ r2_relcol a i) /\
@@ -1751,42 +1774,65 @@ Proof.
     + destruct (live_alive s (snd r) HW Hl) as (Hal & _). congruence.
 Qed.
 
-(** createTable with valid relations never fails and preserves the invariant; the new targets'
-    registrations are pending. Both paths: a fresh table is appended, or the top of the archetype's
-    free stack is relabelled and reused. *)
-Theorem r2_create_table_spec : forall D P X s aid a rels,
+(** The part of createTable after the checks and the registration of the targets. *)
+Definition r2_create_tail (aid : nat) (a : arch) (rels : list rel) (targets : list ent) : MW nat :=
+  s <- get ;;
+  tid <- (match rev (a_free a) with
+          | f :: _ =>
+              modA aid (fun a => a <| a_free ::= fun l => firstn (length l - 1) l |>) ;;;
+              modT f (fun t => t <| t_rels := rels |> <| t_targets := targets |> <| t_free := false |>) ;;;
+              ret f
+          | [] =>
+              let tid := length (w_tables s) in
+              let cap := if arch_has_rels a then cf_caprel (w_cfg s) else cf_cap (w_cfg s) in
+              let kinds := map (kind_of s) (a_comps a) in
+              modify (fun s => s <| w_tables ::= fun l => l ++ [new_table aid a kinds cap targets rels] |>) ;;;
+              ret tid
+          end) ;;
+  t <- getT tid ;;
+  modA aid (fun a => arch_add_table a tid t) ;;;
+  cache_add_table tid t (a_mask a) ;;;
+  ret tid.
+
+Lemma r2_create_table_unfold : forall aid rels,
+  create_table aid rels =
+  (a <- getA aid ;;
+   guard (negb (Nat.ltb (length rels) (a_numrel a))) ERelUnspec ;;;
+   guard (rels_distinct rels) ERelUnspec ;;;
+   targets <- of_opt (place_targets a rels (repeat zero_ent (length (a_comps a)))) EIndex ;;
+   forM_ rels check_rel ;;;
+   register_targets rels ;;;
+   r2_create_tail aid a rels targets).
+Proof. reflexivity. Qed.
+
+(** The tail of createTable (both paths: a fresh table is appended, or the top of the archetype's
+    free stack is relabelled and reused) preserves the invariant, except that the registrations of the
+    table's targets are still required ([r2_addl P (r2_ids rels)]): [r2_create_table_spec] below
+    discharges them, because createTable has registered the targets just before. *)
+Lemma r2_create_tail_spec : forall D P X s aid a rels tg,
   St2G D P X s -> nth_error (w_archs s) aid = Some a ->
   r2_rels_valid s a rels ->
-  (forall x tx tg, nth_error (w_tables s) x = Some tx -> t_arch tx = aid -> t_free tx = false ->
-     place_targets a rels (repeat zero_ent (length (a_comps a))) = Some tg -> t_targets tx <> tg) ->
+  place_targets a rels (repeat zero_ent (length (a_comps a))) = Some tg ->
+  (forall x tx, nth_error (w_tables s) x = Some tx -> t_arch tx = aid -> t_free tx = false -> t_targets tx <> tg) ->
   (a_numrel a = 0 -> a_tables a = []) ->
   r2_nostale a ->
   (forall x, In x (a_free a) -> ~ X x) ->
-  exists tid s' t', create_table aid rels s = Ok tid s' /\
+  exists tid s' t', r2_create_tail aid a rels tg s = Ok tid s' /\
     St2G D (r2_addl P (r2_ids rels)) X s' /\ r2_relabel s s' /\
     nth_error (w_tables s') tid = Some t' /\ t_arch t' = aid /\ t_rels t' = rels /\ t_free t' = false /\ t_len t' = 0 /\
-    place_targets a rels (repeat zero_ent (length (a_comps a))) = Some (t_targets t') /\
+    t_targets t' = tg /\
     (forall x, x <> tid -> nth_error (w_tables s') x = nth_error (w_tables s) x) /\
     (forall i, i <> aid -> nth_error (w_archs s') i = nth_error (w_archs s) i) /\
     ((tid = length (w_tables s) /\ a_free a = []) \/ (exists fr, a_free a = fr ++ [tid])) /\
     w_istarget s' = w_istarget s /\ w_index s' = w_index s /\ w_pool s' = w_pool s /\ side_same s s' /\ frame_user s s'.
 Proof.
-  intros D P X s aid a rels HS Ha HV Huniq Hnorel Hstale HXf. pose proof HS as (HW & HR & HT & HC). pose proof HV as (V1 & V2 & V3 & V4).
+  intros D P X s aid a rels tg HS Ha HV Htg Huniq Hnorel Hstale HXf. pose proof HS as (HW & HR & HT & HC). pose proof HV as (V1 & V2 & V3 & V4).
   destruct (r2_isrel_len s aid a HW Ha) as (LI & LRl).
   pose proof (r2_comps_nodup s aid a HW Ha) as NDc.
-  destruct (r2_place_targets_some a rels (repeat zero_ent (length (a_comps a)))) as (tg & Htg).
-  { intros r Hr. assert (Hc : In (fst r) (map fst rels)) by (apply in_map; exact Hr). apply V3 in Hc.
-    destruct Hc as (i & Hi & _). exists i. apply r2_index_of_nth; assumption. }
   destruct (r2_valid_shape s aid a rels tg HW Ha HV Htg) as (SL & _ & _).
   destruct (r2_kinds_isrel s aid a HW Ha) as (HK & HKL).
   pose proof (r2_norel_cols s aid a HW Ha) as Hnc.
-  unfold create_table.
-  rewrite (sa_bind_ok (sa_getA_eq _ _ _ Ha)). rewrite V2, Nat.ltb_irrefl. cbn [negb guard].
-  rewrite (sa_bind_ok (m := ret tt) (s := s) eq_refl).
-  rewrite (r2_rels_distinct_nodup rels V1). cbn [guard]. rewrite (sa_bind_ok (m := ret tt) (s := s) eq_refl).
-  rewrite Htg. cbn [of_opt].
-  rewrite (sa_bind_ok (m := ret tg) (s := s) eq_refl).
-  rewrite (sa_bind_ok (r2_check_rels_ok s aid a rels HW Ha HV)).
+  unfold r2_create_tail.
   rewrite (sa_bind_ok (m := get) (s := s) eq_refl).
   set (kinds := map (kind_of s) (a_comps a)) in *.
   destruct (rev (a_free a)) as [|f tl] eqn:Erev.
@@ -1831,7 +1877,6 @@ Proof.
     assert (Htid3 : nth_error (w_tables s3) tid = Some t') by exact T1.
     assert (Hinv : St2G D (r2_addl P (r2_ids rels)) X s3 /\ r2_relabel s s3).
     { apply (r2_create_inv D P X s s3 aid a a2 tid t' rels HS Ha HV); try reflexivity; try assumption.
-      - intros x tx Hx Earch Hf. apply (Huniq x tx tg Hx Earch Hf Htg).
       - apply new_table_ok. unfold kinds. apply map_length.
       - left. split; [apply nth_error_None; unfold tid; lia|exact G6].
       - intros t0 Ht0. apply sa_nth_error_lt in Ht0. unfold tid in Ht0. lia. }
@@ -1886,7 +1931,6 @@ Proof.
     assert (Hinv : St2G D (r2_addl P (r2_ids rels)) X s3 /\ r2_relabel s s3).
     { assert (Sd : table_same_data t0 t') by (unfold table_same_data; repeat split).
       apply (r2_create_inv D P X s s3 aid a a2 f t' rels HS Ha HV); try reflexivity; try assumption.
-      - intros x tx Hx Earch Hf. apply (Huniq x tx tg Hx Earch Hf Htg).
       - apply (r2_tbl_ok_same_data t0 t' Sd). pose proof (wf_tables _ HW) as Fo. rewrite Forall_nth_error in Fo. apply (Fo f t0 Ht0).
       - right. exists t0. split; [exact Ht0|]. split; [exact Sd|]. split; [exact Hfree0|].
         unfold a2. rewrite G6. change (a_free a1) with (firstn (length (a_free a) - 1) (a_free a)). rewrite Epop. exact Efree.
@@ -1898,6 +1942,120 @@ Proof.
     split; [right; exists (rev tl); exact Efree|].
     split; [reflexivity|]. split; [reflexivity|]. split; [reflexivity|].
     split; [unfold side_same; cbn; repeat split|unfold frame_user; cbn; repeat split].
+Qed.
+
+(** ** create_table as a whole: the targets are registered together with their table *)
+
+(** What createTable does to the target flags: those of the named targets are set, all others are
+    unchanged (in particular no flag is ever cleared). *)
+Definition r2_flags_reg (s s' : W) (rels : list rel) : Prop :=
+  length (w_istarget s') = length (w_istarget s) /\
+  (forall r, In r rels -> nth (fst (snd r)) (w_istarget s') false = true) /\
+  (forall k, ~ In k (r2_ids rels) -> nth k (w_istarget s') false = nth k (w_istarget s) false) /\
+  (forall k, nth k (w_istarget s) false = true -> nth k (w_istarget s') false = true).
+
+(** the weaker fact that also holds when GetTable finds the table (nothing changes then) *)
+Definition r2_flags_mono (s s' : W) (rels : list rel) : Prop :=
+  length (w_istarget s') = length (w_istarget s) /\
+  (forall k, ~ In k (r2_ids rels) -> nth k (w_istarget s') false = nth k (w_istarget s) false) /\
+  (forall k, nth k (w_istarget s) false = true -> nth k (w_istarget s') false = true).
+
+Lemma r2_flags_reg_mono : forall s s' rels, r2_flags_reg s s' rels -> r2_flags_mono s s' rels.
+Proof. intros s s' rels (F1 & _ & F3 & F4). repeat split; assumption. Qed.
+
+Lemma r2_flags_mono_refl : forall s rels, r2_flags_mono s s rels.
+Proof. intros s rels. repeat split; auto. Qed.
+
+(** a relabelling of a world whose flags were changed first is a relabelling of the original world *)
+Lemma r2_relabel_pre : forall s l' s3, length l' = length (w_istarget s) ->
+  r2_relabel (s <| w_istarget := l' |>) s3 -> r2_relabel s s3.
+Proof.
+  intros s l' s3 Hl R. destruct R as [R1 R2 R3 R4 R5 R6 R7 R8 R9 R10 R11 R12 R13 R14].
+  constructor; try assumption. rewrite R5. exact Hl.
+Qed.
+
+Lemma r2_live_index : forall s e, WF s -> live s e = true -> fst e < length (w_istarget s).
+Proof.
+  intros s e HW H. unfold live, loc in H. destruct (nth_error (w_index s) (fst e)) as [ix|] eqn:E; [|discriminate].
+  destruct (wf_index_len _ HW) as (_ & L). rewrite L. eapply sa_nth_error_lt. exact E.
+Qed.
+
+Lemma r2_zero_index : forall s, WF s -> 0 < length (w_istarget s).
+Proof.
+  intros s HW. destruct (wf_index_len _ HW) as (L1 & L2). destruct (wf_pool _ HW) as (fl & (Hp & _) & _). lia.
+Qed.
+
+(** createTable with valid relations never fails and preserves the invariant, and NO registration
+    is pending afterwards: the targets are registered (flags set) before the table is entered into
+    the archetype's lists. Both paths: a fresh table is appended, or the top of the archetype's free
+    stack is relabelled and reused. *)
+Theorem r2_create_table_spec : forall D P X s aid a rels,
+  St2G D P X s -> nth_error (w_archs s) aid = Some a ->
+  r2_rels_valid s a rels ->
+  (forall x tx tg, nth_error (w_tables s) x = Some tx -> t_arch tx = aid -> t_free tx = false ->
+     place_targets a rels (repeat zero_ent (length (a_comps a))) = Some tg -> t_targets tx <> tg) ->
+  (a_numrel a = 0 -> a_tables a = []) ->
+  r2_nostale a ->
+  (forall x, In x (a_free a) -> ~ X x) ->
+  exists tid s' t', create_table aid rels s = Ok tid s' /\
+    St2G D P X s' /\ r2_relabel s s' /\
+    nth_error (w_tables s') tid = Some t' /\ t_arch t' = aid /\ t_rels t' = rels /\ t_free t' = false /\ t_len t' = 0 /\
+    place_targets a rels (repeat zero_ent (length (a_comps a))) = Some (t_targets t') /\
+    (forall x, x <> tid -> nth_error (w_tables s') x = nth_error (w_tables s) x) /\
+    (forall i, i <> aid -> nth_error (w_archs s') i = nth_error (w_archs s) i) /\
+    ((tid = length (w_tables s) /\ a_free a = []) \/ (exists fr, a_free a = fr ++ [tid])) /\
+    r2_flags_reg s s' rels /\ w_index s' = w_index s /\ w_pool s' = w_pool s /\ side_same s s' /\ frame_user s s'.
+Proof.
+  intros D P X s aid a rels HS Ha HV Huniq Hnorel Hstale HXf. pose proof HS as (HW & HR & HT & HC). pose proof HV as (V1 & V2 & V3 & V4).
+  pose proof (r2_comps_nodup s aid a HW Ha) as NDc.
+  destruct (r2_place_targets_some a rels (repeat zero_ent (length (a_comps a)))) as (tg & Htg).
+  { intros r Hr. assert (Hc : In (fst r) (map fst rels)) by (apply in_map; exact Hr). apply V3 in Hc.
+    destruct Hc as (i & Hi & _). exists i. apply r2_index_of_nth; assumption. }
+  (* the registration *)
+  destruct (r2_register_targets_gen rels s) as (l' & S1 & L1 & M1 & O1 & F1).
+  assert (Hok : is_err (register_targets rels s) = false).
+  { destruct (is_err (register_targets rels s)) eqn:E; [|reflexivity]. exfalso.
+    destruct (F1 eq_refl) as (r & Hr & Hle). destruct (V4 r Hr) as [Hz|Hl].
+    - rewrite Hz in Hle. cbn in Hle. pose proof (r2_zero_index s HW). lia.
+    - pose proof (r2_live_index s (snd r) HW Hl). lia. }
+  set (s1 := s <| w_istarget := l' |>) in *.
+  assert (Ereg : register_targets rels s = Ok tt s1).
+  { destruct (register_targets rels s) as [[] s0|e0 s0]; [|discriminate]. cbn in S1. rewrite S1. reflexivity. }
+  assert (Fr : forall k, ~ In k (r2_ids rels) -> nth k l' false = nth k (w_istarget s) false).
+  { intros k Hk. pose proof (r2_register_targets_frame rels s k Hk) as Hf. rewrite Ereg in Hf. exact Hf. }
+  assert (HS1 : St2G D P X s1).
+  { apply (r2_St2G_flags D P P X s l' HS L1). intros i b k l Hb Hk.
+    destruct (HT i b k l Hb Hk) as [H0|[H1|H2]]; [left; exact H0|right; left; apply M1; exact H1|right; right; exact H2]. }
+  assert (HV1 : r2_rels_valid s1 a rels).
+  { split; [exact V1|]. split; [exact V2|]. split; [exact V3|]. intros r Hr. destruct (V4 r Hr) as [Hz|Hl]; [left; exact Hz|right].
+    rewrite (r2_live_ext s s1); [exact Hl|reflexivity|reflexivity]. }
+  destruct (r2_create_tail_spec D P X s1 aid a rels tg HS1 Ha HV1 Htg)
+    as (tid & s' & t' & E & HS' & R & Ht' & Earch & Erels & Hf & Hlen & Etg & Hoth & Haoth & Hcase & I1 & I2 & I3 & I4 & I5).
+  { intros x tx Hx Ex Hfx. apply (Huniq x tx tg Hx Ex Hfx Htg). }
+  { exact Hnorel. }
+  { exact Hstale. }
+  { exact HXf. }
+  exists tid, s', t'. split.
+  { rewrite r2_create_table_unfold.
+    rewrite (sa_bind_ok (sa_getA_eq _ _ _ Ha)). rewrite V2, Nat.ltb_irrefl. cbn [negb guard].
+    rewrite (sa_bind_ok (m := ret tt) (s := s) eq_refl).
+    rewrite (r2_rels_distinct_nodup rels V1). cbn [guard]. rewrite (sa_bind_ok (m := ret tt) (s := s) eq_refl).
+    rewrite Htg. cbn [of_opt].
+    rewrite (sa_bind_ok (m := ret tg) (s := s) eq_refl).
+    rewrite (sa_bind_ok (r2_check_rels_ok s aid a rels HW Ha HV)).
+    rewrite (sa_bind_ok Ereg). exact E. }
+  assert (Hflag : forall r, In r rels -> nth (fst (snd r)) l' false = true) by (intros r Hr; apply (O1 Hok r Hr)).
+  change (w_istarget s1) with l' in I1.
+  split.
+  { destruct HS' as (HW' & HR' & HT' & HC'). split; [exact HW'|]. split; [exact HR'|]. split; [|exact HC'].
+    intros i b k l Hb Hk. destruct (HT' i b k l Hb Hk) as [H0|[H1|[H2|H3]]]; [left; exact H0|right; left; exact H1|right; right; exact H2|].
+    right. left. rewrite I1. unfold r2_ids in H3. apply in_map_iff in H3. destruct H3 as (r & <- & Hr). apply Hflag. exact Hr. }
+  split; [apply (r2_relabel_pre s l' s' L1 R)|].
+  split; [exact Ht'|]. split; [exact Earch|]. split; [exact Erels|]. split; [exact Hf|]. split; [exact Hlen|].
+  split; [rewrite Etg; exact Htg|]. split; [exact Hoth|]. split; [exact Haoth|]. split; [exact Hcase|].
+  split.
+  { unfold r2_flags_reg. rewrite I1. split; [exact L1|]. split; [exact Hflag|]. split; [exact Fr|exact M1]. }
+  split; [exact I2|]. split; [exact I3|]. split; [exact I4|exact I5].
 Qed.
 
 (** ** What the invariant says about the observable targets (first sentence of C04) *)
@@ -2034,12 +2192,13 @@ Proof.
 Qed.
 
 (** GetTable-or-create: either the unique active table with these relations is found (nothing
-    changes), or it is created. Never fails for a valid relation list. *)
+    changes), or it is created (and its targets are registered). Never fails for a valid relation
+    list; no registration is pending afterwards. *)
 Theorem r2_get_or_create_table_spec : forall D P X s aid a rels,
   St2G D P X s -> nth_error (w_archs s) aid = Some a ->
   r2_rels_valid s a rels -> r2_nostale a -> (forall x, In x (a_free a) -> ~ X x) ->
   exists tid s' t', get_or_create_table aid rels s = Ok tid s' /\
-    St2G D (r2_addl P (r2_ids rels)) X s' /\ r2_relabel s s' /\
+    St2G D P X s' /\ r2_relabel s s' /\
     nth_error (w_tables s') tid = Some t' /\ t_arch t' = aid /\ t_free t' = false /\
     (forall r, In r rels -> tbl_target t' (fst r) = Some (snd r)) /\
     ((s' = s) \/
@@ -2047,14 +2206,14 @@ Theorem r2_get_or_create_table_spec : forall D P X s aid a rels,
       t_len t' = 0 /\ t_rels t' = rels /\
       (forall x, x <> tid -> nth_error (w_tables s') x = nth_error (w_tables s) x) /\
       (forall i, i <> aid -> nth_error (w_archs s') i = nth_error (w_archs s) i)) /\
-    w_istarget s' = w_istarget s /\ w_index s' = w_index s /\ w_pool s' = w_pool s /\ side_same s s' /\ frame_user s s'.
+    r2_flags_mono s s' rels /\ w_index s' = w_index s /\ w_pool s' = w_pool s /\ side_same s s' /\ frame_user s s'.
 Proof.
   intros D P X s aid a rels HS Ha HV Hstale HXf. pose proof HS as (HW & HR & HT & HC). pose proof HV as (V1 & V2 & V3 & V4).
   (* the two outcomes *)
   assert (Found : forall tid tb, nth_error (w_tables s) tid = Some tb -> t_arch tb = aid -> t_free tb = false ->
             (forall r, In r rels -> tbl_target tb (fst r) = Some (snd r)) ->
             exists tid0 s' t', Ok tid s = Ok tid0 s' /\
-              St2G D (r2_addl P (r2_ids rels)) X s' /\ r2_relabel s s' /\
+              St2G D P X s' /\ r2_relabel s s' /\
               nth_error (w_tables s') tid0 = Some t' /\ t_arch t' = aid /\ t_free t' = false /\
               (forall r, In r rels -> tbl_target t' (fst r) = Some (snd r)) /\
               ((s' = s) \/
@@ -2062,17 +2221,17 @@ Proof.
                 t_len t' = 0 /\ t_rels t' = rels /\
                 (forall x, x <> tid0 -> nth_error (w_tables s') x = nth_error (w_tables s) x) /\
                 (forall i, i <> aid -> nth_error (w_archs s') i = nth_error (w_archs s) i)) /\
-              w_istarget s' = w_istarget s /\ w_index s' = w_index s /\ w_pool s' = w_pool s /\ side_same s s' /\ frame_user s s').
+              r2_flags_mono s s' rels /\ w_index s' = w_index s /\ w_pool s' = w_pool s /\ side_same s s' /\ frame_user s s').
   { intros tid tb Ht Earch Hf Hm. exists tid, s, tb. split; [reflexivity|]. split.
-    { split; [exact HW|]. split; [exact HR|]. split; [|exact HC]. apply (r2_TargetFlagsG_mono s P); [intros k Hk; left; exact Hk|exact HT]. }
+    { exact HS. }
     split; [apply r2_relabel_flags; try reflexivity; exact HW|]. split; [exact Ht|]. split; [exact Earch|]. split; [exact Hf|]. split; [exact Hm|].
-    split; [left; reflexivity|]. split; [reflexivity|]. split; [reflexivity|]. split; [reflexivity|].
+    split; [left; reflexivity|]. split; [apply r2_flags_mono_refl|]. split; [reflexivity|]. split; [reflexivity|].
     split; [apply sa_side_same_refl|apply sa_frame_user_refl]. }
   assert (Create : (forall x tx tg, nth_error (w_tables s) x = Some tx -> t_arch tx = aid -> t_free tx = false ->
                       place_targets a rels (repeat zero_ent (length (a_comps a))) = Some tg -> t_targets tx <> tg) ->
             (a_numrel a = 0 -> a_tables a = []) ->
             exists tid0 s' t', create_table aid rels s = Ok tid0 s' /\
-              St2G D (r2_addl P (r2_ids rels)) X s' /\ r2_relabel s s' /\
+              St2G D P X s' /\ r2_relabel s s' /\
               nth_error (w_tables s') tid0 = Some t' /\ t_arch t' = aid /\ t_free t' = false /\
               (forall r, In r rels -> tbl_target t' (fst r) = Some (snd r)) /\
               ((s' = s) \/
@@ -2080,7 +2239,7 @@ Proof.
                 t_len t' = 0 /\ t_rels t' = rels /\
                 (forall x, x <> tid0 -> nth_error (w_tables s') x = nth_error (w_tables s) x) /\
                 (forall i, i <> aid -> nth_error (w_archs s') i = nth_error (w_archs s) i)) /\
-              w_istarget s' = w_istarget s /\ w_index s' = w_index s /\ w_pool s' = w_pool s /\ side_same s s' /\ frame_user s s').
+              r2_flags_mono s s' rels /\ w_index s' = w_index s /\ w_pool s' = w_pool s /\ side_same s s' /\ frame_user s s').
   { intros Huniq Hnorel.
     destruct (r2_create_table_spec D P X s aid a rels HS Ha HV Huniq Hnorel Hstale HXf)
       as (tid & s' & t' & E & HS' & R & Ht' & Earch & Erels & Hf & Hlen & Hp & Hoth & Haoth & Hcase & I1 & I2 & I3 & I4 & I5).
@@ -2101,7 +2260,7 @@ Proof.
         destruct (wf_arch_tables _ HW aid a tid Ha (or_intror (or_introl Hin))) as (t0 & Ht0 & _).
         exists t0. split; [exact Ht0|]. apply (ri_freed _ _ HR aid a tid t0 Ha Hin Ht0).
       - split; [exact Hlen|]. split; [exact Erels|]. split; [exact Hoth|exact Haoth]. }
-    split; [exact I1|]. split; [exact I2|]. split; [exact I3|]. split; [exact I4|exact I5]. }
+    split; [apply r2_flags_reg_mono; exact I1|]. split; [exact I2|]. split; [exact I3|]. split; [exact I4|exact I5]. }
   unfold get_or_create_table. rewrite (sa_bind_ok (sa_getA_eq _ _ _ Ha)).
   destruct (a_tables a) as [|t0 trest] eqn:Etabs.
   - (* no active table at all *)
@@ -2254,3 +2413,9 @@ Proof.
       * assert (HX' : ~ r2_add1 X tid x) by (intros [Hc|Hc]; [contradiction|contradiction]).
         rewrite (I x HX'). unfold r2_cache_member. change (w_tables s') with (w_tables s). change (w_archs s') with (w_archs s). tauto.
 Qed.
+
+Definition r2_struct_all :=
+  (r2_register_targets_spec, r2_arch_remove_target_spec, r2_free_table_spec, r2_arch_add_table_spec,
+   r2_create_tail_spec, r2_create_table_spec, r2_get_or_create_table_spec, r2_St2_targets,
+   r2_RelInvG_drop, r2_cache_remove_table_spec).
+Print Assumptions r2_struct_all.
